@@ -58,7 +58,9 @@ Segs == <<
   [Seg("special", "script", "<script>i<</script>", <<>>) EXCEPT !.body = 8],           \* the body ends in "<" right before the closing tag
   [Seg("special", "style", "<style>a</</style>", <<>>) EXCEPT !.body = 7],             \* ... in "</"
   Seg("open", "p", "<p k=l\n m=n\n>", <<A("k", 3, "l", 5), A("m", 8, "n", 10)>>),      \* a tag written over several lines, unquoted values end the lines
-  Seg("open", "a", "<a x=y\r\nz>", <<A("x", 3, "y", 5), A("z", 8, NONE, 0)>>) >>
+  Seg("open", "a", "<a x=y\r\nz>", <<A("x", 3, "y", 5), A("z", 8, NONE, 0)>>),
+  Seg("open", "p", "<p class={s  tu}>", <<A("class", 3, "{s  tu}", 9)>>),                   \* class names inside an expression value
+  Seg("self", "b", "<b id=a class={ s t }/>", <<A("id", 3, "a", 6), A("class", 8, "{ s t }", 14)>>) >>
 
 (* generated families: "<" name attribute-part end, script / style with a body and their closing tag, opaque sections *)
 GenAttrs == << [txt |-> "", attrs |-> <<>>],
